@@ -117,3 +117,8 @@ pub fn any_pointer(cells: usize) -> Pointer {
 pub fn ip_of(state: &State) -> Option<usize> {
     state.instruction_pointer.get().map(|a| a.value_usize())
 }
+
+/// The return address of a frame (the field is crate-visible; the native replay binaries are separate crates).
+pub fn frame_return_address(f: &Frame) -> Option<u32> {
+    f.return_address.map(|a| a.value_u32())
+}
